@@ -318,3 +318,27 @@ func badWheneverExtraDisjunction(resp *hdr, a, b bool) {
 		mark()
 	}
 }
+
+// ---------------------------------------------------------------- variable slice bounds (linear prover)
+
+func okVarBound(p []byte) []byte {
+	if len(p) < 1 {
+		return nil
+	}
+	n := int(p[0])
+	if 1+n > len(p) {
+		return nil
+	}
+	return p[1 : 1+n]
+}
+
+func badBoundsVarOffByPrefix(p []byte) []byte {
+	if len(p) < 1 {
+		return nil
+	}
+	n := int(p[0])
+	if n > len(p) {
+		return nil
+	}
+	return p[1 : 1+n]
+}
